@@ -9,7 +9,7 @@ from ..core import shim as shim_mod
 
 PROPERTY = "C06"
 LEVEL = "fault_enumeration"
-RULE = ("each objective call is a free 4-way choice (return, TimeoutError, RuntimeError, ValueError); all patterns over serial batches "
+RULE = ("each objective call is a free 4-way choice (return, TimeoutError, RuntimeError, a foreign exception: ValueError / FileNotFoundError / ZeroDivisionError / KeyError / OSError depending on the configuration); all patterns over serial batches "
         "of 1 and 2 designs (94 leaves per design incl. exactly 4 and exactly 5 consecutive failures); for one design additionally "
         "re-sampling draws deviating to 0.0 / 1-2^-53 (<=1 deviation per execution; thorough <=2); boxes incl. negative, tiny, huge, with and without declared "
         "precision; 2 designs on 2 worker threads under the controlled scheduler: every failure pattern (free) x every schedule with <=1 (thorough 2) pre-emptions. Non-trivial = at least one injected failure; "
@@ -17,7 +17,10 @@ RULE = ("each objective call is a free 4-way choice (return, TimeoutError, Runti
 ASSUMPTIONS = ["the objective's exceptions are raised by the harness wrapper before the objective body runs",
                "in-box tolerance 1e-12 relative, or half the declared precision"]
 
-FAULTS = ("ok", "TimeoutError", "RuntimeError", "ValueError")
+FAULTS = ("ok", "TimeoutError", "RuntimeError", "other")
+# "any other exception": one foreign type per configuration (OSError is the parent class of TimeoutError, LookupError /
+# ArithmeticError are common parents of what numerical objectives raise)
+FOREIGN = {"unit": ValueError, "neg_prec": FileNotFoundError, "tiny_huge": ZeroDivisionError, "far_prec": KeyError, "offgrid": OSError}
 CONFIGS = {
     # name: (bounds, param_extra)
     "unit": ([[0.0, 1.0], [-5.0, 5.0]], [{}, {}]),
@@ -52,7 +55,7 @@ class Env:
                 elif c == 2:
                     exc = RuntimeError("injected")
                 elif c == 3:
-                    exc = ValueError("injected")
+                    exc = FOREIGN[cfg]("injected")
                 env["calls"].append({"ind": individual, "vector": tuple(individual.vector), "outcome": FAULTS[c], "exc": exc})
                 if exc is not None:
                     raise exc
@@ -89,7 +92,10 @@ def body_factory(cfg, nbatch, extreme, seed):
         bounds = CONFIGS[cfg][0]
         batch = []
         for k in range(nbatch):
-            batch.append(Individual([b[0] + (b[1] - b[0]) * (0.25 + 0.5 * k / max(1, nbatch)) for b in bounds]))
+            if extreme:      # designs exactly on the bounds (where clipped children often sit): lower for the first, upper for the second
+                batch.append(Individual([b[k % 2] for b in bounds]))
+            else:
+                batch.append(Individual([b[0] + (b[1] - b[0]) * (0.25 + 0.5 * k / max(1, nbatch)) for b in bounds]))
         start = [tuple(i.vector) for i in batch]
         exc = None
         try:
@@ -134,9 +140,9 @@ def body_factory(cfg, nbatch, extreme, seed):
                         bad("C06:no-retry-after-transient:attempt=%d" % (j + 1), "design %d not retried after attempt %d failed with %s" % (k, j + 1, c["outcome"]))
                     if last and j + 1 >= 5:
                         stopped = "five"
-                elif c["outcome"] == "ValueError":
+                elif c["outcome"] == "other":
                     if not last:
-                        bad("C06:foreign-exception-swallowed", "design %d evaluated again after ValueError" % k)
+                        bad("C06:foreign-exception-swallowed:%s" % FOREIGN[cfg].__name__, "design %d evaluated again after %s" % (k, FOREIGN[cfg].__name__))
                     stopped = c["exc"]
                 else:  # ok
                     if not last:
@@ -158,12 +164,13 @@ def body_factory(cfg, nbatch, extreme, seed):
         if stopped is None:
             if exc is not None:
                 bad("C06:unexpected-exception:%s" % type(exc).__name__, "caller saw %r" % (exc,))
+        elif stopped != "five" and exc is not stopped:
+            bad("C06:foreign-exception-not-propagated:%s" % type(stopped).__name__, "objective raised %r, caller saw %r" % (stopped, exc))
         elif stopped == "five":
             if not isinstance(exc, RuntimeError):
                 bad("C06:five-failures-no-runtimeerror", "after five consecutive failures the caller saw %r" % (exc,))
         else:
-            if exc is not stopped:
-                bad("C06:foreign-exception-not-propagated", "objective raised %r, caller saw %r" % (stopped, exc))
+            pass
         # ---- the failed list ----
         got_failed = [tuple(x.vector) for x in problem.failed]
         if got_failed != failed_exp:
